@@ -212,7 +212,7 @@ def _short_diff(a: str | None, b: str | None) -> str:
 
 def verdict(root: Path) -> tuple[dict[str, str], list[str]]:
     p = subprocess.run([str(V / "check"), "ALL", "--root", str(root)], capture_output=True, text=True, cwd=str(V),
-                       env=dict(os.environ, VERIF_NO_EVIDENCE="1"))
+                       env=dict(os.environ, VERIF_NO_EVIDENCE="1", **({"VERIF_SCRATCH_DIR": str(root)} if root != REPO else {})))
     res = {}
     known = []
     for line in p.stdout.splitlines():
